@@ -27,9 +27,9 @@ import (
 	"unicode/utf8"
 
 	ledger "github.com/formancehq/ledger/internal"
+	"github.com/formancehq/ledger/internal/api/backend"
 	v1 "github.com/formancehq/ledger/internal/api/v1"
 	v2 "github.com/formancehq/ledger/internal/api/v2"
-	"github.com/formancehq/ledger/internal/api/backend"
 	"github.com/formancehq/ledger/internal/opentelemetry/metrics"
 	"github.com/formancehq/ledger/internal/storage/ledgerstore"
 	"github.com/formancehq/ledger/verifx/fakeapi"
@@ -1112,7 +1112,7 @@ func (h *harness) one(r *vx.Run, in Input, emit bool) {
 	if hasCount(in.Listing) {
 		variants = append(variants, true)
 	}
-	fail := func(clause, variant, via, detail string) {
+	fail := func(clause, variant, via, detail string, rerun func(Input) (outcome, outcome, bool)) {
 		// shrink: give leaves their harmless value one at a time while the failure persists
 		cur := in
 		curTree := in.Tree
@@ -1136,16 +1136,18 @@ func (h *harness) one(r *vx.Run, in Input, emit bool) {
 		}
 		nLeaves := 0
 		in.Tree.leaves(func(*Node) { nLeaves++ })
-		if via == "store" && nLeaves <= 12 {
+		if nLeaves <= 12 {
 			for t := 0; t < nLeaves; t++ {
 				idx, target = 0, t
 				cand := walk(curTree)
 				ci := cur
 				ci.Tree = cand
-				a := h.runStore(ci, variant == "count", cand.builder())
-				b := h.runStore(ci, variant == "count", twin(in.Listing, cand).builder())
-				if c, _ := judge(a, b); c == clause {
-					curTree = cand
+				a, b, ok := rerun(ci)
+				if !ok {
+					continue
+				}
+				if c, d := judge(a, b); c == clause {
+					curTree, detail = cand, d
 				}
 			}
 			cur.Tree = curTree
@@ -1195,7 +1197,10 @@ func (h *harness) one(r *vx.Run, in Input, emit bool) {
 			r.Count("outcome:accepted")
 		}
 		if clause, detail := judge(a, b); clause != "" {
-			fail(clause, variant, "store", detail)
+			count := count
+			fail(clause, variant, "store", detail, func(ci Input) (outcome, outcome, bool) {
+				return h.runStore(ci, count, ci.Tree.builder()), h.runStore(ci, count, twin(ci.Listing, ci.Tree).builder()), true
+			})
 		}
 		// Coq case
 		key, _ := json.Marshal(in)
@@ -1212,7 +1217,15 @@ func (h *harness) one(r *vx.Run, in Input, emit bool) {
 			if c.method == http.MethodHead {
 				variant = "count"
 			}
-			fail(clause, variant, c.via, detail+fmt.Sprintf(" [%s %s?%s body=%q]", c.method, c.path, c.q.Encode(), c.body))
+			c := c
+			fail(clause, variant, c.via, detail+fmt.Sprintf(" [%s %s?%s body=%q]", c.method, c.path, c.q.Encode(), c.body), func(ci Input) (outcome, outcome, bool) {
+				for _, x := range httpCalls(ci, twin(ci.Listing, ci.Tree)) {
+					if x.via == c.via && x.method == c.method && x.path == c.path && (x.body == "") == (c.body == "") && (x.q.Get("query") == "") == (c.q.Get("query") == "") {
+						return h.runHTTP(h.router(x.via), x.method, x.path, x.q, x.body), h.runHTTP(h.router(x.via), x.method, x.path, x.tq, x.tbody), true
+					}
+				}
+				return outcome{}, outcome{}, false
+			})
 		}
 	}
 	r.Count("listing:" + in.Listing)
